@@ -24,7 +24,8 @@ RULE = ('one-channel scripts of chunks/calls/completions: byte streams built fro
         'initial buffer and shrinking/growing sequences, noise, arbitrary/mutated protobuf bodies whose decoding is taken '
         'from the real parser; each stream cut whole / per byte / at every header offset / randomly; calls (ordinary, '
         'streaming, to methods of another service) interleaved at any offset; sequence numbers near 2^32 and forced id '
-        'reuse; jammed send direction; asynchronous service completing requests later, out of order, with duplicate '
+        'reuse; jammed send direction; requests queued and then served when the reply cannot be written (peer gone / send '
+        'buffer full); calls that reuse one reply object with optional and repeated fields; asynchronous service completing requests later, out of order, with duplicate '
         'request ids.  two-channel scripts: two real RpcChannels back to back over a pipe pair, the server lacking '
         'methods and answering when told.  non-trivial = at least one message dispatched by the model; distinct = '
         'distinct model output line')
@@ -91,12 +92,13 @@ class Script:
         self.pre = []            # tokens before anything (q..)
         self.post = []           # tokens after the stream
         self.ids = []            # ids of calls planned so far
+        self.codes = {}          # id -> call code
         self.seq = 0
     def setseq(self, v):
         self.pre.append('q%d' % v); self.seq = v
     def call(self, code=''):
         self.marks.append((len(self.stream), 'm' + code))
-        if code not in ('t', 'd'): self.ids.append(self.seq)
+        if code not in ('t', 'd'): self.ids.append(self.seq); self.codes[self.seq] = code
         self.seq = (self.seq + 1) & 0xffffffff
     def mark(self, tok):
         self.marks.append((len(self.stream), tok))
@@ -308,6 +310,52 @@ def gen_script(rng, kind):
             s.raw([0x08, 0x02] + [rng.randrange(256) for _ in range(rng.choice([0, 5, 3000]))])
         for _ in range(rng.choice([1, 2])):
             s.request()
+    elif kind == 'srvfail':
+        # serving side: requests are queued, then the reply cannot be written (peer gone / send buffer full)
+        if rng.random() < 0.3: s.flags.append('A')
+        nreq = rng.choice([1, 2, 3, 5])
+        for _ in range(nreq):
+            r = rng.random()
+            if r < 0.7: s.served_request(rng.choice([0, 1, 7]), rng.choice([b'Echo', b'FailedEcho', b'Stream']))
+            elif r < 0.85: s.frame(rng.choice([1, 10]), 3, b'Nope', echo_req(b'n'))     # NOT_IMPLEMENTED reply
+            else: s.response(0)
+        hold = hx(s.stream)
+        s.stream = []
+        how = rng.choice(['p', 'p', 'z'])
+        pre = ['w' + hold, how] if rng.random() < 0.7 else [how, 'w' + hold]
+        if how == 'p': pre = ['w' + hold, 'p']      # nothing can be written once the peer is gone
+        s.post += pre + ['c-']
+        if 'A' in s.flags:
+            for q in range(nreq):
+                if rng.random() < 0.6: s.post.append('k%d%s' % (q, rng.choice('RF')))
+        if rng.random() < 0.5: s.post.append('m')
+        if rng.random() < 0.5: s.post.append('c-')
+    elif kind == 'reuse':
+        # the application reuses one reply object (optional + repeated fields) across calls
+        code = rng.choice(['x', 'u'])
+        n = rng.choice([2, 2, 3, 4])
+        for _ in range(n):
+            s.call(code)
+            if rng.random() < 0.2: s.call(rng.choice(['x', 'u', 'e']))
+        ids = list(s.ids)
+        order = list(reversed(ids)) if rng.random() < 0.6 else rng.sample(ids, len(ids))
+        for j, i in enumerate(order):
+            if rng.random() < 0.15:
+                s.frame(rng.choice([4, 5, 3]), i, None, list(b'no'))
+                continue
+            if s.codes.get(i) not in ('x', 'u'):
+                s.frame(2, i, None, echo_req(b'e'))
+                continue
+            elif s.codes.get(i) == 'x':
+                # DmxData: optional priority present in earlier answers, absent later
+                buf = [0x08, rng.choice([1, 2, 300 & 0x7f])] + [0x12] + varint(3 - min(j, 3)) + [0x44] * (3 - min(j, 3))
+                if j == 0 or rng.random() < 0.3: buf += [0x18, rng.choice([1, 100])]
+            else:
+                # UIDListReply: fewer UIDs in later answers
+                buf = [0x08, 1]
+                for u in range(max(0, 2 - j) + rng.choice([0, 0, 1])):
+                    buf += [0x12, 0x07, 0x08, 0x7a, 0x15, u, 0, 0, 1]
+            s.frame(2, i, None, buf)
     elif kind == 'async':
         # the service answers later and out of order; ids reused while a request is outstanding
         s.flags.append('A')
@@ -428,7 +476,7 @@ def gen_random_bodies(rng, n):
 def gen_cases(rng, tier):
     n = 130 if tier == 'quick' else 8000
     kinds = ['valid', 'zero', 'badver', 'oversize', 'maxexact', 'undecodable', 'noise', 'bufsize',
-             'calls', 'calls', 'wrap', 'dupid', 'jam', 'async', 'async', 'bigmask']
+             'calls', 'calls', 'wrap', 'dupid', 'jam', 'async', 'async', 'bigmask', 'srvfail', 'reuse']
     for c in gen_random_bodies(rng, 300 if tier == 'quick' else 20000):
         yield c
     for i in range(n):
